@@ -104,6 +104,23 @@ def drawUpdateOps (rows : Nat) (otop xtop : Int) : List Op :=
     let n := min (otop - xtop) xrows
     (List.range n.toNat).map (fun (i : Nat) => Op.row (i : Int)))
 
+/-- the primitive operations of `vi_drawfix(r1, r2, n, preview)` entered with the given `xtop` -/
+def drawFixOps (rows : Nat) (xtop : Int) (r1 r2 n : Int) (preview : Bool) : List Op :=
+  let xrows : Int := rows
+  let dis := n - (r2 - r1 + 1)
+  let xtop := if preview && r1 < xtop then r1 else xtop
+  if r1 < xtop then (List.range rows).map (fun (k : Nat) => Op.row (k : Int)) else
+  let r1 := min (max r1 xtop) (xtop + xrows - 1)
+  let r2 := min (max r2 xtop) (xtop + xrows - 1)
+  [Op.room (r1 - xtop) (r1 - r2 - 1 + n)] ++
+  (if dis < 0 && r1 + n < xtop + xrows then
+    let xt := xtop + (if preview then -dis else 0)
+    let from_ := r1 + n + (if preview then -dis else 0)
+    (List.range (xt + xrows - from_).toNat).map (fun (i : Nat) => Op.row (from_ + (i : Int) - xt))
+   else []) ++
+  ((List.range (xtop + xrows - r1).toNat).filterMap (fun (i : Nat) =>
+    let row := r1 + (i : Int); if row < r1 + n then some (Op.row (row - xtop)) else none))
+
 /-- the redraw decision at the end of an iteration of `vi()` (without the message row and `hll`) -/
 def epilogue (s : Scr) (ls : Lines) (modRowOrWin : Bool) (modRow : Bool) (otop oleft orow xtop xleft xrow : Int) : Scr :=
   if modRowOrWin || xleft != oleft then
